@@ -33,6 +33,7 @@ ASSUMPTIONS = [
 ]
 USES = ("complete-list", "complete-callback", "complete-generator", "partial-suspended", "partial-closed", "partial-collected", "never-started",
         "complete-generator-second-created-first", "partial-closed-during-second-use")
+USES_RANDOM = USES + ("abandoned-in-a-cycle-collected-mid-run",)  # costs a full collection per case: random pairs only
 
 
 def first_use(tk, v1, kind, use, j):
@@ -104,6 +105,36 @@ def check_pair(ctx, v1, v2, params, kind, use, j, fresh_cache=None):
                     g1.close()
                     g1 = None
             keep = None
+        elif use == "abandoned-in-a-cycle-collected-mid-run":
+            # the earlier generator was advanced and then abandoned inside a reference cycle: the cyclic collector finalises it at
+            # a moment of its own choosing - here inside the source's read(), while the second run is in the middle of a token
+            frames1, _ = tok.FRAME_KINDS[kind](v1)
+            g1 = tk.tokenize(tok.CountingSource(frames1), generator=True)
+            for _ in range(max(1, j)):
+                try:
+                    next(g1)
+                except StopIteration:
+                    break
+            cell = {"g": g1}
+            cell["self"] = cell
+            del g1, cell
+            at = 1 + (j * 3 + len(frames2) // 2) % (len(frames2) + 1)
+
+            class CollectingSource(tok.CountingSource):
+                def read(self):
+                    if self.calls + 1 == at:
+                        gc.collect()
+                    return tok.CountingSource.read(self)
+
+            was = gc.isenabled()
+            gc.disable()
+            try:
+                second = tok.spans(tok.deliver(tk, CollectingSource(frames2), ("list", "generator", "callback")[len(v1) % 3]))
+            finally:
+                if was:
+                    gc.enable()
+            keep = None
+            ctx.count("generators_collected_in_the_middle_of_a_later_run")
         else:
             keep = first_use(tk, v1, kind, use, j)
             second = tok.spans(tok.deliver(tk, tok.CountingSource(frames2), ("list", "generator", "callback")[len(v1) % 3]))
@@ -149,7 +180,7 @@ def random_pairs(ctx, conf):
         params = G.random_params(rng, 12)
         v1 = G.structured_random(rng, params, 60)
         v2 = G.structured_random(rng, params, 60)
-        check_pair(ctx, v1, v2, params, rng.choice(tok.KIND_NAMES), rng.choice(USES), rng.randint(0, 3))
+        check_pair(ctx, v1, v2, params, rng.choice(tok.KIND_NAMES), rng.choice(USES_RANDOM), rng.randint(0, 3))
         if (i & 63) == 0 and ctx.out_of_time():
             return
 
